@@ -41,7 +41,7 @@ SIGNED = {f: f[0] in "iI" for f in FORMATS}
 REPBITS = {"i8": 8, "i16": 16, "I24": 32, "i32": 32, "I48": 64, "i64": 64, "u8": 8, "u16": 16, "U24": 32, "u32": 32, "U48": 64, "u64": 64}
 FW = {32: dict(prec=24, mw=23, ew=8, emax=128, bias=127, name="f32"), 64: dict(prec=53, mw=52, ew=11, emax=1024, bias=1023, name="f64")}
 TEST_CONV = os.environ.get("DASP_CONV_RS")  # TESTING ONLY: pretend /repo's conv.rs were this file
-N_THEOREMS = 28
+N_THEOREMS = 29
 
 
 def fmin(f):
@@ -277,6 +277,9 @@ def gen_items(rng, tier):
             elif d == "f2i":
                 line = f"f2i {fw} {CODE[f]} " + " ".join(map(str, part))
                 coq = f"FF2I {mode} {fw} {CODE[f]} [" + "; ".join(zt(v) for v in part) + "]"
+            elif d == "same":
+                line = f"f2f {fw} 1 " + " ".join(map(str, part))
+                coq = f"FFSame {mode} {fw} [" + "; ".join(zt(v) for v in part) + "]"
             else:
                 line = f"f2f {fw} 0 " + " ".join(map(str, part))
                 coq = f"FF2F {mode} {fw} [" + "; ".join(zt(v) for v in part) + "]"
@@ -310,6 +313,10 @@ def gen_items(rng, tier):
         vals = f2f_inputs(rng.fork(f"ff{fw}"), fw, 1500 if quick else 20000)
         for mode in (0, 1):
             add("f2f", "f2f", mode, None, fw, vals)
+        # the same float format (f32 -> f32, f64 -> f64): the blanket identity impl `impl<S> FromSample<S> for S`
+        same = f2f_inputs(rng.fork(f"same{fw}"), fw, 200 if quick else 4000)
+        for mode in (0, 1):
+            add("same-format", "same", mode, None, fw, same)
     return items
 
 
@@ -352,6 +359,8 @@ def fn_name(S, it_or_dir, f=None, fw=None):
     else:
         d = it_or_dir
     ft = FW[fw]["name"]
+    if d == "same":
+        return "conv.rs `impl<S> FromSample<S> for S` (the blanket identity impl)"
     if d == "f2f":
         pair = (ft, "f64" if fw == 32 else "f32")
     else:
@@ -368,6 +377,8 @@ def call_name(d, f, fw):
         return f"<{f} as Sample>::to_sample::<{ft}>()"
     if d == "f2i":
         return f"<{ft} as Sample>::to_sample::<{f}>()"
+    if d == "same":
+        return f"<{ft} as Sample>::to_sample::<{ft}>()"
     return f"<{ft} as Sample>::to_sample::<{'f64' if fw == 32 else 'f32'}>()"
 
 
@@ -376,7 +387,7 @@ def harness_line(d, f, fw, vals):
         return f"i2f {CODE[f]} {fw} " + " ".join(map(str, vals))
     if d == "f2i":
         return f"f2i {fw} {CODE[f]} " + " ".join(map(str, vals))
-    return f"f2f {fw} 0 " + " ".join(map(str, vals))
+    return f"f2f {fw} {1 if d == 'same' else 0} " + " ".join(map(str, vals))
 
 
 def coq_case(d, mode, f, fw, vals):
@@ -385,6 +396,8 @@ def coq_case(d, mode, f, fw, vals):
         return f"FI2F {mode} {CODE[f]} {fw} {vs}"
     if d == "f2i":
         return f"FF2I {mode} {fw} {CODE[f]} {vs}"
+    if d == "same":
+        return f"FFSame {mode} {fw} {vs}"
     return f"FF2F {mode} {fw} {vs}"
 
 
@@ -394,6 +407,8 @@ def expectation(d, f, fw, v):
         return spec_i2f(f, fw, v) if fmin(f) <= v <= fmax(f) else None
     if d == "f2i":
         return spec_f2i(f, fw, v)[0]
+    if d == "same":
+        return v if decode(fw, v) is not None else (0x7FC00000 if fw == 32 else 0x7FF8000000000000)
     x = fvalue(fw, v)
     if x is None:
         return None
@@ -481,6 +496,10 @@ def oracle_lines(rng, tier, mode, for_search=False):
     for fw in (32, 64):
         for b in structured_for(("f2f", None, fw), rs):
             out.append((f"of2f {fw} 0 {b} 1 1", ("f2f", None, fw), 1))
+        for b in structured_for(("same", None, fw), rs):
+            out.append((f"of2f {fw} 1 {b} 1 1", ("same", None, fw), 1))
+        n = (400000 if rel else 100000) if quick else 1 << 22
+        out.append((f"rf2f {fw} 1 {rng.range(1, 1 << 62)} {n}", ("same", None, fw), n))
     for fw in (32, 64):
         key = ("f2f", None, fw)
         if fw == 32:
@@ -531,8 +550,8 @@ def structured_for(key, rng):
 def minimise_failure(binpath, fl, rng):
     """a readable witness: the first failing input among the structured values of that conversion, if any"""
     d, f, fw = fl["key"]
-    op = {"i2f": "oi2f", "f2i": "of2i", "f2f": "of2f"}[d]
-    a, b = (CODE[f], fw) if d == "i2f" else (fw, CODE[f]) if d == "f2i" else (fw, 0)
+    op = {"i2f": "oi2f", "f2i": "of2i", "f2f": "of2f", "same": "of2f"}[d]
+    a, b = (CODE[f], fw) if d == "i2f" else (fw, CODE[f]) if d == "f2i" else (fw, 1 if d == "same" else 0)
     cands = structured_for(fl["key"], rng)[:600]
     lines = [f"{op} {a} {b} {v} 1 1" for v in cands]
     rc, outl, _ = F.run_bin_parallel(binpath, lines)
@@ -549,7 +568,8 @@ def describe_fail(S, fl, mode, why=None):
            7: f"to_sample/from_sample disagree: {fl['got']} vs {fl['expected']}", 8: f"panic kind {fl['got']}"}.get(fl["tag"], fl["got"])
     what = {"i2f": "integer -> float conversion is not round_NE(amplitude)/2^(bits-1)",
             "f2i": "float -> integer conversion is not trunc(f*2^(bits-1)) (re-offset for unsigned)",
-            "f2f": "f32 <-> f64 conversion is not the exact / correctly rounded value"}[d]
+            "f2f": "f32 <-> f64 conversion is not the exact / correctly rounded value",
+            "same": "conversion of a float sample to its own format (the blanket identity impl) does not return the sample"}[d]
     p = dict(kind=what, function=fn_name(S, d, f, fw), call=call_name(d, f, fw), profile="debug" if mode == 0 else "release",
              input=fl["input"], input_is="integer value" if d == "i2f" else "IEEE bit pattern", got=got, expected=fl["expected"],
              failing_inputs_in_that_sweep=fl["nfail"], harness_line=harness_line(d, f, fw, [fl["input"]]),
@@ -574,6 +594,7 @@ def scratch_harness():
     F.ensure_dir(os.path.join(h, "src", "bin"))
     shutil.copy(os.path.join(F.HARNESS, "src", "lib.rs"), os.path.join(h, "src", "lib.rs"))
     shutil.copy(os.path.join(F.HARNESS, "src", "bin", "c02.rs"), os.path.join(h, "src", "bin", "c02.rs"))
+    shutil.copy(os.path.join(F.HARNESS, "src", "direct.rs"), os.path.join(h, "src", "direct.rs"))
     F.write_if_changed(os.path.join(h, "Cargo.toml"),
                        '[package]\nname = "dasp_verif_harness"\nversion = "0.0.0"\nedition = "2018"\npublish = false\n\n[workspace]\n\n'
                        f'[dependencies]\ndasp_sample = {{ path = "{ds}" }}\n\n'
